@@ -35,7 +35,8 @@ CONSTANTS
   MaxFragsOf(_),  \* frames per message
   CtlLensOf(_),   \* payload lengths of the pings it may put between two frames
   MaxCtlOf(_),    \* pings per stream
-  ReadSizesOf(_)  \* len(b) of the receiving application's Read calls; 0: ReadMessage (reads all there is)
+  ReadSizesOf(_), \* len(b) of the receiving application's Read calls; 0: ReadMessage (reads all there is)
+  ReadBufsOf(_)   \* ReadBufferSize the receiving endpoint is configured with; 0: the default; -1: any (left to the harness)
 
 VARIABLES
   \* sender
@@ -50,6 +51,8 @@ VARIABLES
   rejected,   \* WsWire refused one of its frames
   \* receiver
   rd,         \* the application's Read size (-1: not chosen yet)
+  rbs,        \* the configured ReadBufferSize
+  rfail,      \* the reader has failed for good (readErr): nothing is delivered any more
   rq,         \* index in wire of the next frame to parse
   rkey,       \* readMaskKey: the frame whose key is loaded (0: none)
   rpos,       \* readMaskPos after the last Read
@@ -62,10 +65,10 @@ VARIABLES
   pings       \* payloads handed to the ping handler
 
 svars == <<k, soff, sopen, scmp, bud, nctl, wire, ended, rejected>>
-rvars == <<rd, rq, rkey, rpos, rdz, rwrap, rlen, cur, curt, out, pings>>
+rvars == <<rd, rbs, rfail, rq, rkey, rpos, rdz, rwrap, rlen, cur, curt, out, pings>>
 pvars == <<wvars, svars, rvars>>
 
-PeerDevs == {"mask-offset-per-message", "mask-key-kept", "mask-pos-per-read", "decompress-sticky"}
+PeerDevs == {"mask-offset-per-message", "mask-key-kept", "mask-pos-per-read", "decompress-sticky", "read-buffer-unclamped"}
 
 Budget == MaxFragsOf(msgs)
 
@@ -143,14 +146,33 @@ KeyOffset(j) ==
     [] OTHER                           -> j                \* position 0 at the header, carried from Read to Read
 Unmasked(s, key) == [j \in 1..Len(s) |-> Xor(s[j], <<key, KeyOffset(j - 1) % 4>>)]
 
-\* the receiving application decides how it reads (once, when the stream is there)
+\* The endpoint reads the transport through a buffer. Payload of data frames is copied out of it in pieces of any
+\* size; a frame header and the payload of a control frame are looked at IN the buffer, in one piece: that needs a
+\* buffer of at least as many octets.  "Any buffer sizes": whatever ReadBufferSize the application configures, the
+\* endpoint keeps its buffer large enough for the largest legal control payload (RFC 6455 5.5: 125 octets).
+MaxOf(a, b) == IF a > b THEN a ELSE b
+DefaultReadBuf == 4096
+MinBufio == 16                                     \* what a buffered reader makes of a smaller request
+BufCap == LET asked == IF rbs <= 0 THEN DefaultReadBuf ELSE rbs
+          IN IF Dev = "read-buffer-unclamped" THEN MaxOf(asked, MinBufio) ELSE MaxOf(asked, 125)
+
+\* the receiving application decides how it is configured and how it reads (once, when the stream is there)
 RChoose ==
   /\ ended /\ ~rejected /\ rd = -1
   /\ rd' \in ReadSizesOf(msgs)
-  /\ UNCHANGED <<wvars, svars, rq, rkey, rpos, rdz, rwrap, rlen, cur, curt, out, pings>>
+  /\ rbs' \in ReadBufsOf(msgs)
+  /\ UNCHANGED <<wvars, svars, rfail, rq, rkey, rpos, rdz, rwrap, rlen, cur, curt, out, pings>>
+
+\* a control frame whose payload does not fit the buffer: the reader fails, for good
+RTooBig ==
+  /\ ended /\ ~rejected /\ rd # -1 /\ ~rfail /\ rq <= Len(wire)
+  /\ wire[rq].op \in CtlOps /\ wire[rq].len > BufCap
+  /\ rfail' = TRUE
+  /\ UNCHANGED <<wvars, svars, rd, rbs, rq, rkey, rpos, rdz, rwrap, rlen, cur, curt, out, pings>>
 
 RFrame ==
-  /\ ended /\ ~rejected /\ rd # -1 /\ rq <= Len(wire)
+  /\ ended /\ ~rejected /\ rd # -1 /\ ~rfail /\ rq <= Len(wire)
+  /\ ~(wire[rq].op \in CtlOps /\ wire[rq].len > BufCap)
   /\ LET f    == wire[rq]
          \* header: the key is loaded, the position starts at 0, the flag follows RSV1
          key  == IF f.m = 1 THEN (IF Dev = "mask-key-kept" /\ f.op = OpCont /\ rkey # 0 THEN rkey ELSE rq) ELSE rkey
@@ -172,19 +194,19 @@ RFrame ==
                            /\ cur' = <<>> /\ curt' = 0 /\ rlen' = 0 /\ rwrap' = FALSE
                       ELSE /\ out' = out /\ cur' = all /\ curt' = t /\ rlen' = Len(all) /\ rwrap' = wrap
   /\ rq' = rq + 1
-  /\ UNCHANGED <<wvars, svars, rd>>
+  /\ UNCHANGED <<wvars, svars, rd, rbs, rfail>>
 
 PInit == /\ role \in Roles /\ msgs \in MsgLists
          /\ i = 1 /\ open = FALSE /\ acc = 0 /\ cz = FALSE
          /\ k = 1 /\ soff = 0 /\ sopen = FALSE /\ scmp = FALSE /\ bud = Budget /\ nctl = 0
          /\ wire = <<>> /\ ended = FALSE /\ rejected = FALSE
-         /\ rd = -1 /\ rq = 1 /\ rkey = 0 /\ rpos = 0 /\ rdz = FALSE /\ rwrap = FALSE /\ rlen = 0
+         /\ rd = -1 /\ rbs = -1 /\ rfail = FALSE /\ rq = 1 /\ rkey = 0 /\ rpos = 0 /\ rdz = FALSE /\ rwrap = FALSE /\ rlen = 0
          /\ cur = <<>> /\ curt = 0 /\ out = <<>> /\ pings = <<>>
-PNext == SendData \/ SendPing \/ SendEnd \/ RChoose \/ RFrame
+PNext == SendData \/ SendPing \/ SendEnd \/ RChoose \/ RFrame \/ RTooBig
 PSpec == PInit /\ [][PNext]_pvars
 
 \* --------------------------------------------------------------- properties
-Done == ended /\ ~rejected /\ rd # -1 /\ rq = Len(wire) + 1
+Done == ended /\ ~rejected /\ rd # -1 /\ (rq = Len(wire) + 1 \/ rfail)
 Expected(n) == [t |-> msgs[n].t, p |-> PlainForm(n)]
 \* C13: what the peer delivers is the sequence of (type, payload) that was written ...
 Intact       == \A n \in 1..Len(out) : n <= Len(msgs) /\ out[n] = Expected(n)
